@@ -175,3 +175,16 @@ for _pid, (_t, _x) in _ADD3.items():
     if _pid in CLAIMED:
         t0, x0, r0 = CLAIMED[_pid]
         CLAIMED[_pid] = (t0 + '; ' + _t, (x0 + ' ' + _x).strip(), r0)
+
+# round 12
+_ADD4 = {
+    'C04': ('normalize() interpreted on a stateful exact model system (rational LAMMPS-form cell under a rational rotation)', ''),
+    'C05': ('normalize() interpreted on a stateful exact model system (rational LAMMPS-form cell under a rational rotation, right- and left-handed)',
+            'Also decided, on the scripted cells: the new cell is the LAMMPS form of the same lengths and angles, every atom keeps its box-relative coordinates, wrap() runs last on the copy, the returned transformation is a proper rotation taking old vectors onto new.'),
+    'C08': ('stream model with a read position handed through the readers', 'Also decided: every pass of the LAMMPS data-file and dump-file readers over an open file-like object starts at its beginning.'),
+    'C15': ('site search on a one-atom cell with the real shape of System.dvect results', 'Also decided: a site given by position is found in a cell with a single atom.'),
+}
+for _pid, (_t, _x) in _ADD4.items():
+    if _pid in CLAIMED:
+        t0, x0, r0 = CLAIMED[_pid]
+        CLAIMED[_pid] = (t0 + '; ' + _t, (x0 + ' ' + _x).strip(), r0)
